@@ -4,6 +4,7 @@
 import IpfixModel.Model.Builder
 import IpfixModel.Spec.C16
 import IpfixModel.Lemmas.IE
+import IpfixModel.Lemmas.RecordBuf
 namespace Ipfix.C16
 
 inductive BOp where
@@ -167,6 +168,20 @@ theorem add_paths_equiv_template (s : SetB) (es : List Elem) (tid : Nat) (ht : s
     s.addRecord es tid = s.addRecordV2 es tid := by
   simp only [SetB.addRecord, SetB.addRecordV2, ht, fold_template es [] _ hz, templateRecordBytes]
   simp [List.append_assoc]
+
+/-- the link to the EXACT model of dataRecord.GetBuffer (Model/RecordBuf.lean, tied to the code byte
+    for byte by `ie recbuf`): a record that the builder model accepts into a data set carries exactly the
+    bytes GetBuffer computes for its elements, and as many as the record reports -/
+theorem data_record_bytes_exact (s s' : SetB) (es : List Elem) (tid : Nat) (hd : s.ty = .data)
+    (h : s.addRecordV2 es tid = some s') :
+    ∃ r, s'.recs = s.recs ++ [r] ∧ r.elems = es ∧ r.bytes = recordBuf es ∧ r.bytes.length = recordLength es := by
+  simp only [SetB.addRecordV2, hd] at h
+  cases he : encodeRecord es with
+  | none => simp [he] at h
+  | some bs =>
+    simp [he] at h
+    subst h
+    exact ⟨_, rfl, rfl, (recordBuf_eq_encodeRecord' es bs he).symm, encodeRecord_length es bs he⟩
 
 /-! ## Reuse -/
 
